@@ -93,6 +93,6 @@ package checkpoint
 //@   properties C17
 //@   ghost var curDb mathint
 //@   requires nonnil: cli != nil
-//@   modifies heap, curDb, replayFailed, reqs, lastCmd, lastNArgs, lastA1, lastA2, lastA3, lastA4, lastReply
+//@   modifies heap, curDb, replayFailed, reqs, lastCmd, lastNArgs, lastA1, lastA2, lastA3, lastA4, lastReply, nDel, nPexpire
 //@   assert at call Do: never_the_newest: arg0 == "hdel" ==> !(exceptNewest && db#2 == newestDb)
 //@   assert at call Do: only_stale: arg0 == "hdel" ==> cpi#2.Mtime <= before
